@@ -563,9 +563,7 @@ def gen_a64grammar():
                         sp_names.append(v)
                     elif ok and isinstance(v, (list, tuple, set, frozenset)) and s is n.left:
                         sp_names += sorted(v)
-    doc = ast.get_docstring(po_, clean=False)
-    stray = [n.value for n in ast.walk(po_) if isinstance(n, ast.Constant) and isinstance(n.value, str)
-             and n.value not in ("list", "range", "name") and n.value != doc and n.value not in sp_names]
+    stray = [v for v in U.const_strings(po_, fenv) if v not in ("list", "range", "name") and v not in sp_names]
     if len(sp_names) != 1 or stray:
         raise TranslateError("process_operand: expected exactly the 'sp' special case, got %r" % (sp_names + stray))
     ps = U.method(cls, "process_sp_register")
